@@ -501,3 +501,43 @@ func AtomicVoid(site string, f func()) {
 		Yield(site)
 	}
 }
+
+
+// PoolGet replaces (*sync.Pool).Get: objects pooled during this run, last in first out.
+//go:norace
+func PoolGet(p *sync.Pool) any {
+	s := cur()
+	if s == nil || RaceEnabled {
+		return p.Get()
+	}
+	ilock(&s.mu)
+	st := s.pools[p]
+	if n := len(st); n > 0 {
+		x := st[n-1]
+		st[n-1] = nil
+		s.pools[p] = st[:n-1]
+		iunlock(&s.mu)
+		return x
+	}
+	iunlock(&s.mu)
+	if p.New != nil {
+		return p.New()
+	}
+	return nil
+}
+
+// PoolPut replaces (*sync.Pool).Put.
+//go:norace
+func PoolPut(p *sync.Pool, x any) {
+	s := cur()
+	if s == nil || RaceEnabled {
+		p.Put(x)
+		return
+	}
+	ilock(&s.mu)
+	if s.pools == nil {
+		s.pools = map[*sync.Pool][]any{}
+	}
+	s.pools[p] = append(s.pools[p], x)
+	iunlock(&s.mu)
+}
